@@ -12,22 +12,44 @@ Monitors (all on the real engine, no repository edits):
     os/subprocess/socket/ctypes/... events are violations);
  4. live allow-list tables are inspected on every shard start (category rule);
  5. totality: every call under `except BaseException`, with silent=True and silent=False (strict UTF-8 stdout);
- 6. resource bound: bombs run one per child process (RLIMIT_AS, faulthandler); must return within B = 10*tau + 2 s and
-    below 1 GiB peak RSS.
+ 6. resource bound: bombs run one per process (forked from a server that imported the library once; RLIMIT_AS, faulthandler); must
+    return within B = 10*tau + 2 s and below 1 GiB peak RSS. "Did not return" is decided on the CPU time the process consumed
+    (stopped at B + 5 s of CPU), never on wall time.
+
+Round-4 workload (all judged by the monitors above, nothing keyed to a private name):
+ * tool names with regex metacharacters / format directives / control characters / lone surrogates / keywords / empty, registered through
+   every public route (constructor list of any iterable shape, engulf_tool, register_function, assignment into the public `tools` dict),
+   tool objects of unusual shape (falsy, `capabilities` vs `required_capabilities`, schemas, falsy callables), every exception type of
+   rv.faults from tool bodies;
+ * the evaluator's reachable namespace: every module-level name of the engine's module, every builtin and common module names, bare and
+   through one attribute / subscript / call (`math.pi`, `operator.add(1, 2)`, `time.time()`, `probe.func(1)` ...);
+ * sessions on two long-lived engines used alternately: tools registered / re-registered / removed (the tool-pathway oracle follows the
+   harness's own record of what is registered NOW), public settings (`timeout`, `max_ros`, `silent`, `allowed_capabilities`) assigned
+   mid-session with values of every usual and unusual type, read-only APIs interleaved (differential twin session without them),
+   copy / deepcopy / pickle duplicates, address reuse (fresh equal-length inputs with forced collections), re-entrant tools, str-subclass
+   expressions, one long history (2 500 / 25 000 evaluations on one instance);
+ * bombs: bytes twins of every str bomb, printf widths of 1.2-1.3 GB under a 3 GiB cap, timeout assigned after construction, duplicated
+   engines, interpreter started with -O (plus a refusal probe of every snippet under -O), process time zone far from UTC.
 """
 import ast
+import copy
+import gc
 import io
 import json
 import math
 import operator
 import os
+import pickle
+import random
 import subprocess
 import sys
 import time
 from concurrent.futures import ThreadPoolExecutor
+from fractions import Fraction
 
 from rv import core
-from rv.faults import Unprintable
+from rv import c01_extra as X
+from rv.faults import Unprintable, EXC_CLASSES
 from rv.exprgen import AllowedGen, ALLOWED_BINOPS, ALLOWED_UNARY, ALLOWED_CMP, ALLOWED_BOOL
 
 PID = "C01"
@@ -36,15 +58,19 @@ TECHNIQUE = "runtime monitoring: sys.monitoring stack monitor on the AST walker 
 RULE = ("snippets of every ast.expr class of the running interpreter (checked at run time) x embedding contexts (root, under every allowed parent, dead "
         "branches, tool arguments) x pathways (auto + 4 forced) x engines with 0-3 tools; hostile text family (pathway-detection tricks, dunder/import "
         "payloads, NUL, lone surrogates, 9999/10000/10001/100000 chars, nesting 50..5000, huge numerals); random allowed expressions with one forbidden "
-        "snippet substituted; bombs in child processes; non-trivial = parses as Python and contains a node outside Constant; distinct = multiset of (node class, parent class)")
-ASSUMPTIONS = ["tools raise only Exception subclasses", "stdout can encode the engine's own emoji (UTF-8); only the user's text is hostile",
+        "snippet substituted; hostile tool names x registration routes; reachable-namespace sweep (names x attribute/subscript/call); two-engine sessions with "
+        "settings, registry and duplication changing mid-session; bombs (str and bytes twins, -O, reassigned timeout, duplicated engine, far time zone) in child processes; non-trivial = parses as Python and contains a node outside Constant; distinct = multiset of (node class, parent class)")
+ASSUMPTIONS = ["tools raise only Exception subclasses", "tool names are str (or str subclass) objects; expressions are str (or plain str subclass) objects",
+               "registration with silent=False echoes the tool name and is not an evaluation (tools are registered silently)",
+               "a re-entrant tool does not recurse without bound", "settings of the annotated numeric kind only (int/float/bool/Fraction; not None/Decimal)", "stdout can encode the engine's own emoji (UTF-8); only the user's text is hostile",
                "B = 10*timeout_seconds + 2 s and 1 GiB peak RSS are the resource bound derived from 'a bound governed by its configured timeout'",
                "a forbidden construct in a branch that Python semantics never evaluates is not 'performed'"]
 
 # ------------------------------------------------------------------ forbidden / odd snippets per node class
 SNIPPETS = {
-    "Attribute": ["(1).real", "'a'.upper", "abs.__name__", "().__class__", "pi.real", "().__class__.__bases__"],
-    "Subscript": ["[1, 2][0]", "'abc'[1]", "(1, 2)[0:1]", "[1, 2, 3][::2]", "[[1]][0][0]"],
+    "Attribute": ["(1).real", "'a'.upper", "abs.__name__", "().__class__", "pi.real", "().__class__.__bases__", "math.pi", "math.e", "math.inf", "math.sqrt",
+                  "operator.add", "time.time", "ast.parse", "probe.func", "probe.name", "probe.execute", "abs.__self__", "b'a'.hex", "(1j).imag", "True.real"],
+    "Subscript": ["[1, 2][0]", "'abc'[1]", "(1, 2)[0:1]", "[1, 2, 3][::2]", "[[1]][0][0]", "math['pi']", "pi[0]", "b'ab'[0]", "probe[0]"],
     "Lambda": ["(lambda: 1)", "(lambda x: x)"],
     "ListComp": ["[x for x in [1, 2]]", "[1 for _ in [1]]"],
     "SetComp": ["{x for x in [1]}"],
@@ -59,13 +85,16 @@ SNIPPETS = {
     "Dict": ["{'a': 1}", "{}", "{**{}}"],
     "Set": ["{1, 2}"],
     "Compare": ["1 is 1", "1 is not 2", "1 in [1]", "1 not in [1]"],
-    "BinOp": ["1 | 2", "1 & 3", "1 ^ 3", "1 << 2", "8 >> 1", "[1] @ [2]"],
+    "BinOp": ["1 | 2", "1 & 3", "1 ^ 3", "1 << 2", "8 >> 1", "[1] @ [2]", "b'ab' * 2", "b'a' + b'b'", "b'%5d' % 1", "'%5d' % 1", "b'%s' % b'x'", "1j * 1j",
+              "True + True", "None == None", "b'a' < b'b'", "2 ** 0.5j", "-0.0 * 1", "2 ** 53 + 1.0", "0.1 + 0.2 == 0.3", "inf - inf == inf - inf"],
     "UnaryOp": ["~1"],
     "Call": ["'a'.upper()", "abs(1)(2)", "(lambda: 1)()", "[abs][0](1)", "__import__('os')", "eval('1')", "exec('1')", "open('x')",
              "getattr(1, 'real')", "type(1)", "vars()", "globals()", "compile('1', '', 'eval')", "print(1)", "input()", "dir()",
              "object()", "str(1)", "list([1])", "range(3)", "setattr(abs, 'x', 1)", "max(**{})", "hasattr(1, 'real')", "locals()",
              "__import__('os').system('true')", "breakpoint()", "x.probe(1)", "(1).probe(2)", "probe.probe(3)", "(abs if 1 else max)(-1)",
-             "(abs or max)(-2)", "(max and abs)(-3)", "(abs,)[0](1)", "probe(1)(2)", "pi.probe()", "memoryview(b'a')", "bytes(3)", "iter([1])", "next(iter([1]))"],
+             "(abs or max)(-2)", "(max and abs)(-3)", "(abs,)[0](1)", "probe(1)(2)", "pi.probe()", "memoryview(b'a')", "bytes(3)", "iter([1])", "next(iter([1]))",
+             "math.sqrt(4)", "math.factorial(5)", "math.comb(5, 2)", "operator.add(1, 2)", "time.time()", "probe.func(1)", "probe.execute(1)", "abs.__call__(-1)",
+             "b'ab'.decode()", "(1.5).is_integer()", "int.from_bytes(b'a', 'big')", "float.fromhex('0x1p0')", "math.pi.__class__()"],
     "Name": ["__builtins__", "__name__", "os", "sys", "self", "x", "nan", "__import__", "eval", "Mitochondria", "node", "tree"],
     "Constant": ["None", "...", "b'ab'", "1j"],
     "IfExp": ["(1).real if 1 else 2"],
@@ -145,14 +174,16 @@ PATHWAYS = [None, "GLYCOLYSIS", "KREBS_CYCLE", "OXIDATIVE", "BETA_OXIDATION"]
 
 
 def plan(tier):
-    nh = len(HOSTILE)
-    rnd = 4000 if tier == "quick" else 200000
-    return {"cases": len(SWEEP) + nh + rnd, "shards": 8 if tier == "quick" else 14, "min_nontrivial": 500,
-            "timeout": 900 if tier == "quick" else 3000,
+    return {"cases": layout(tier)["total"], "shards": 8 if tier == "quick" else 14, "min_nontrivial": 500,
+            "timeout": 1800 if tier == "quick" else 5400,
             "require": {"engine_calls": 20000, "walker_frames_observed": 50000, "walker_frames_returning_value": 20000,
                         "walker_frames_raising": 5000, "parses_recorded": 10000, "audit_events_seen": 10000, "successes_judged": 3000,
                         "table_entries_inspected": 50, "expr_classes_covered": 20, "bombs_run": 10, "tool_pathway_successes": 100, "registered_tools_addressed": 1000,
-                        "silent_false_calls": 5000, "digest_glucose_calls": 2000, "dead_branch_cases": 200}}
+                        "silent_false_calls": 5000, "digest_glucose_calls": 2000, "dead_branch_cases": 200,
+                        "hostile_name_calls": 2000, "namespace_expressions": 500, "session_evaluations": 1500, "tools_registered": 300, "tools_removed": 10, "withdrawn_tools_addressed": 50,
+                        "settings_assigned_mid_session": 50, "read_only_api_calls": 50, "differential_sessions": 6, "address_reuse_evaluations": 100,
+                        "reentrant_evaluations": 5, "long_history_operations": 500, "str_subclass_expressions": 100, "bombs_optimized_interpreter": 3,
+                        "optimized_probe_expressions": 40, "bombs_on_duplicated_engine": 1, "bombs_after_timeout_reassigned": 1, "bytes_twin_bombs": 5}}
 
 
 # ------------------------------------------------------------------ monitors
@@ -166,6 +197,7 @@ class Mon:
     code = None
     argname = "node"
     own_audit_depth = 0
+    reenter_depth = 0
 
 
 def _label(node):
@@ -307,6 +339,11 @@ def inspect_tables(ctx):
 def setup_shard(ctx):
     install(ctx)
     Mon.names = inspect_tables(ctx)
+    import operon_ai.organelles.mitochondria as mm
+    Mon.namespace = list(dict.fromkeys(X.namespace_items(mm, Mon.names)))
+    for name in dir(mm.Mitochondria):
+        if not name.startswith("_") and callable(getattr(mm.Mitochondria, name, None)):
+            ctx.count("api:%s" % name, 0)          # public methods never reached by a run show up with 0
     cov = snippet_classes()
     allc = {c.__name__ for c in ast.expr.__subclasses__()}
     ctx.counters["expr_classes_covered"] = len(cov & allc)
@@ -380,8 +417,10 @@ def engine_call(ctx, mito, expr, pathway, tools, desc, entry="metabolize"):
     try:
         if entry == "digest_glucose":
             ctx.count("digest_glucose_calls")
+            ctx.count("api:digest_glucose")
             res = mito.digest_glucose(expr)
         else:
+            ctx.count("api:metabolize")
             res = mito.metabolize(expr, MP[pathway] if pathway else None)
     except BaseException as e:  # noqa
         exc = e
@@ -509,11 +548,13 @@ def make_engine(rng, kind):
         tools.add("probe")
     if kind >= 2:
         unprintable = rng.random() < 0.3      # a tool whose exception cannot even be turned into text
+        exc_cls = rng.choice([Boom] + EXC_CLASSES)
+        with_message = rng.random() < 0.7
 
         def bad(*a, **k):
             if unprintable:
                 raise Unprintable("tool failed")
-            raise Boom("tool failed")
+            raise exc_cls("tool failed") if with_message else exc_cls()
         mito.register_function(rng.choice(["boom", "sum", "ab", "probe2"]), bad, "raises")
         tools = set(mito.tools)
     if kind >= 3:
@@ -523,9 +564,374 @@ def make_engine(rng, kind):
     return mito, tools
 
 
+# ------------------------------------------------------------------ round-4 families: tool shapes / names, sessions, namespace
+NS_CASES = 256
+NAME_EXPRS = ["1 + 1", "2 < 3", "[1, 2]", "true and false", "probe(1)", "probe (1)", "(1).real", "abs(-1)", "", "pi", "1 if 2 > 1 else 0", "'a' * 2"]
+SESSION_POOL = ["1 + 1", "2 * 3 - 1", "abs(-2)", "max(1, 2)", "1 < 2", "true and not false", "pi * 2", "1 / 0", "foo", "(1).real", "[1, 2][0]", "math.pi", "math.sqrt(4)",
+                "probe(1)", "probe(k=2)", "PROBE(1)", "probe (1)", "probe(1, 2)", "probe('a', 'b')", "probe((1).real)", "probe(probe(1))", "__import__('os')", "[1, 2]", '{"a": 1}',
+                "len([1, 2])", "round(2.567, 2)", "factorial(5)", "sum([1, 2, 3])", "1 if 1 else (1).real", "0 and x", "'a' * 3", "b'a' * 3", "1e308 * 10", "int(inf)",
+                "float('nan') == float('nan')", "2 ** 53 + 1", "-0.0", "0.1 + 0.2", "x" * 10001, "((", "lambda: 1", "f'{1}'", "eval('1')", "t1(1)", "t2(1, 2)", "T1(1)", "t3()"]
+
+
+def layout(tier):
+    """case index ranges of the workload families (fixed numbers per tier)"""
+    sizes = [("sweep", len(SWEEP)), ("hostile", len(HOSTILE)), ("names", len(X.HOSTILE_NAMES)), ("namespace", NS_CASES),
+             ("session", 72 if tier == "quick" else 900), ("random", 4000 if tier == "quick" else 200000)]
+    out, at = {}, 0
+    for k, n in sizes:
+        out[k] = (at, at + n)
+        at += n
+    out["total"] = at
+    return out
+
+
+def api(ctx, obj, name, *a, **k):
+    """every public method goes through here so that the evidence lists which ones a session reached"""
+    ctx.count("api:%s" % name)
+    return getattr(obj, name)(*a, **k)
+
+
+def register(ctx, rng, mito, registered, name, route, behaviour="echo", exc_index=0, falsy=False, extras=False):
+    """registers one tool silently through one of the public routes; returns the tool object"""
+    from operon_ai.core.types import Capability
+    caps_attr = rng.choice([None, None, "required_capabilities", "capabilities"]) if extras else None
+    caps = rng.choice([set(), None, {Capability.NET}, frozenset([Capability.READ_FS]), ["net"], "net", {"net", Capability.MONEY}]) if caps_attr else None
+    schema = rng.choice([None, {}, {"type": "object", "properties": {"x": {"type": "integer"}}}, {"type": "nonsense"}]) if extras else None
+    desc = rng.choice(["", "echo", "d\x00\n{}%s", X.S("described")]) if extras else "tool"
+    tool = X.ShapeTool(name, behaviour, exc_index, falsy, caps_attr, caps, desc, schema)
+    was = mito.silent
+    mito.silent = True
+    try:
+        if route == 0:
+            func = tool.execute if behaviour != "echo" or rng.random() < 0.5 else X.FalsyCallable(name)
+            kw = {}
+            if extras:
+                kw = {"description": desc, "parameters_schema": schema}
+                if caps_attr and isinstance(caps, (set, frozenset)):
+                    kw["required_capabilities"] = set(caps)
+            api(ctx, mito, "register_function", name, func, **kw)
+        elif route == 1:
+            api(ctx, mito, "engulf_tool", tool)
+        else:
+            mito.tools[name] = tool          # the registry is a public attribute
+            ctx.count("api:tools-item-assignment")
+    finally:
+        mito.silent = was
+    registered.add(name)
+    ctx.count("tools_registered")
+    return tool
+
+
+def new_engine(ctx, rng, differential):
+    """an engine configured from the rng (constructor options of every usual and unusual type), tools handed to the constructor"""
+    from operon_ai.organelles.mitochondria import Mitochondria
+    from operon_ai.core.types import Capability
+    if differential:
+        tau = rng.choice([30, 60.5, Fraction(61, 2), 10 ** 6, 1e9, 5.0 * 20])
+    else:
+        tau = rng.choice([0, 0.0, 1e-9, -1, True, False, 0.001, Fraction(1, 1000), 5.0, float("inf"), 30, 3])
+    max_ros = rng.choice([1e12, 1e12, 1.0, 0.35, 0, -1, True, Fraction(1, 2), float("inf"), 10 ** 30, 0.1])
+    caps = rng.choice([None, None, set(), {Capability.NET}, set(Capability), frozenset([Capability.READ_FS])])
+    registered = set()
+    pre = []
+    for i in range(rng.choice([0, 0, 1, 2])):
+        name = rng.choice(["probe", "t1", "T1", "t2", rng.choice(X.HOSTILE_NAMES)])
+        pre.append(X.ShapeTool(name, rng.choice(["echo", "echo", "raise", "odd", "extra-positional"]), rng.randrange(40), rng.random() < 0.3))
+        registered.add(name)
+    shape = rng.randrange(5)
+    tools_arg = [None if not pre else list(pre), tuple(pre), iter(pre), (t for t in pre), map(lambda t: t, pre)][shape]
+    ctx.count("ctor_tools_shape:%s" % ["list-or-None", "tuple", "iter", "generator", "map"][shape])
+    kw = {}
+    if differential or rng.random() < 0.8:
+        kw["timeout_seconds"] = tau
+    if rng.random() < 0.8:
+        kw["max_ros"] = max_ros
+    if rng.random() < 0.5:
+        kw["allowed_capabilities"] = caps
+    ctx.count("api:__init__")
+    mito = Mitochondria(tools=tools_arg, silent=True, **kw)
+    mito.silent = rng.choice([True, True, False, 0, 1, None, "", "yes"])
+    return mito, registered
+
+
+def gen_ops(rng, nops, differential, long_history=False):
+    """a session as plain data (so that it can be replayed on a twin engine pair)"""
+    ops = []
+    names = ["probe", "t1", "T1", "t2", "t3"] + [rng.choice(X.HOSTILE_NAMES) for _ in range(2)]
+    for _ in range(nops):
+        k = rng.random()
+        if long_history and rng.random() < 0.97:
+            k = 0.0
+        if k < 0.52:
+            e = rng.choice(SESSION_POOL)
+            if long_history and rng.random() < 0.6:
+                e = "%d + %d" % (len(ops), rng.randrange(10 ** 6))      # distinct items
+            if rng.random() < 0.25:
+                g = AllowedGen(rng, lower_bools=rng.random() < 0.3)
+                e = g.top(rng.choice([1, 2, 3]))
+            if rng.random() < 0.15:
+                cls = rng.choice(sorted(SNIPPETS))
+                e = rng.choice([c[0] for c in CONTEXTS[:20]]).format("(" + rng.choice(SNIPPETS[cls]) + ")")
+            if rng.random() < 0.1:
+                e = "%s(%s)" % (rng.choice(names), rng.choice(["", "1", "1, 2", "k=1", e]))
+            ops.append(("eval", e, rng.choice(PATHWAYS + [None, None]), "digest_glucose" if rng.random() < 0.15 else "metabolize", rng.random() < 0.15))
+        elif k < 0.60:
+            ops.append(("register", rng.choice(names), rng.randrange(3), rng.choice(["echo", "echo", "raise", "odd", "extra-positional"]), rng.randrange(60),
+                        rng.random() < 0.3, rng.random() < 0.5))
+        elif k < 0.64:
+            ops.append(("remove", rng.choice(names), rng.randrange(3)))
+        elif k < 0.72:
+            attr = rng.choice(["timeout", "max_ros", "silent", "allowed_capabilities"])
+            ops.append(("set", attr, rng.randrange(10 ** 6)))
+        elif k < 0.82:
+            ops.append(("read", rng.choice(["get_statistics", "list_tools", "export_tool_schemas", "get_efficiency", "get_ros_level", "repr", "dir"])))
+        elif k < 0.86:
+            ops.append(("copy", rng.choice(["copy", "deepcopy", "pickle"])))
+        elif k < 0.91:
+            ops.append(("switch",))
+        elif k < 0.94:
+            ops.append(("repair", rng.choice([0.05, 0.5, 10.0, 0, -1, True])))
+        elif k < 0.96:
+            ops.append(("churn", rng.randrange(4, 12), rng.randrange(10 ** 6)))
+        elif k < 0.98:
+            ops.append(("tool_call", rng.choice(names), rng.choice([{}, {"k": 1}, {"x": 1, "y": 2}])))
+        else:
+            ops.append(("reenter", rng.choice(["re1", "re2"]), rng.choice(["1 + 1", "(1).real", "probe(1)", "re1(1)", "1 / 0"])))
+    return ops
+
+
+def setting_value(attr, code, differential):
+    from operon_ai.core.types import Capability
+    r = random.Random(code)
+    if attr == "timeout":
+        return r.choice([30, 60.5, Fraction(61, 2), 10 ** 6, 1e9]) if differential else r.choice([0, 0.0, 1e-9, -1, True, False, 0.001, Fraction(1, 1000), 5.0, float("inf"), 30])
+    if attr == "max_ros":
+        return r.choice([1e12, 1.0, 0.35, 0, -1, True, Fraction(1, 2), float("inf"), 10 ** 30, 0.1, 0.2])
+    if attr == "silent":
+        return r.choice([True, False, 0, 1, None, "", "yes", [], X.FalsyCallable()])
+    return r.choice([None, set(), {Capability.NET}, set(Capability), frozenset([Capability.READ_FS]), frozenset()])
+
+
+def play(ctx, n, ops, with_reads, differential, label):
+    """runs the session on a fresh engine pair built from the case rng; returns the trace of verdicts of the evaluations"""
+    from operon_ai.providers import ToolCall
+    rng = ctx.rng(n, "engines")          # the SAME stream for both twins
+    engines = [list(new_engine(ctx, rng, differential)), list(new_engine(ctx, rng, differential))]
+    cur = 0
+    trace = []
+    desc = {"session": label, "differential": differential}
+    for i, op in enumerate(ops):
+        mito, registered = engines[cur]
+        kind = op[0]
+        if kind == "eval":
+            _, e, pw, entry, strsub = op
+            if strsub:
+                e = X.S(e)
+                ctx.count("str_subclass_expressions")
+            r = engine_call(ctx, mito, e, pw if entry == "metabolize" else None, registered, dict(desc, op=i), entry=entry)
+            ctx.count("session_evaluations")
+            if entry == "metabolize":
+                trace.append((i, None if r is None else bool(r.success), None if r is None or not r.success else type(r.atp.value).__name__))
+            else:
+                trace.append((i, None if r is None else not str(r).startswith("Metabolic Failure"), None))
+            if i % 3 == 0 and mito.get_ros_level() >= mito.max_ros:      # keep the session from degenerating into a latched engine
+                was, mito.silent = mito.silent, True
+                mito.repair(10.0)
+                mito.silent = was
+        elif kind == "register":
+            _, name, route, beh, exi, falsy, extras = op
+            register(ctx, ctx.rng(n, "reg", i), mito, registered, name, route, beh, exi, falsy, extras)
+            for pw in (None, "OXIDATIVE"):
+                r = engine_call(ctx, mito, "%s(1, k=2)" % name, pw, registered, dict(desc, op=i, just_registered=name))
+                trace.append((i, "registered", None if r is None else bool(r.success)))
+        elif kind == "remove":
+            _, name, how = op
+            if name in mito.tools:
+                if how == 0:
+                    del mito.tools[name]
+                elif how == 1:
+                    mito.tools.pop(name)
+                else:
+                    mito.tools = {k: v for k, v in mito.tools.items() if k != name}     # the registry replaced wholesale
+                ctx.count("tools_removed")
+            registered.discard(name)
+            # the withdrawn name is addressed at once, auto-detected and on the forced tool pathway: it must not run any more
+            for pw in (None, "OXIDATIVE"):
+                r = engine_call(ctx, mito, "%s(1)" % name, pw, registered, dict(desc, op=i, withdrawn=name))
+                ctx.count("withdrawn_tools_addressed")
+                trace.append((i, "withdrawn", None if r is None else bool(r.success)))
+        elif kind == "set":
+            _, attr, code = op
+            setattr(mito, attr, setting_value(attr, code, differential))
+            ctx.count("settings_assigned_mid_session")
+        elif kind == "read":
+            if with_reads:
+                try:
+                    if op[1] == "repr":
+                        repr(mito), str(mito)
+                    elif op[1] == "dir":
+                        sorted(k for k in dir(mito) if not k.startswith("_"))
+                    else:
+                        api(ctx, mito, op[1])
+                    ctx.count("read_only_api_calls")
+                except Exception as e:  # noqa  (outside the statement: recorded only)
+                    ctx.count("read_only_api_raised(recorded):%s" % type(e).__name__)
+        elif kind == "copy":
+            mode = op[1]
+            try:
+                if mode == "pickle":
+                    dup = pickle.loads(pickle.dumps(mito))
+                elif mode == "deepcopy":
+                    dup = copy.deepcopy(mito)
+                else:
+                    dup = copy.copy(mito)
+                ctx.count("engine_duplicated:%s" % mode)
+            except Exception:  # a closure tool of the harness cannot be pickled
+                dup = copy.deepcopy(mito)
+                ctx.count("engine_duplicated:deepcopy")
+            engines[cur] = [dup, set(registered)]
+        elif kind == "switch":
+            cur = 1 - cur
+            ctx.count("engine_switches")
+        elif kind == "repair":
+            try:
+                was, mito.silent = mito.silent, True
+                api(ctx, mito, "repair", op[1])
+                mito.silent = was
+            except Exception as e:  # noqa
+                ctx.count("repair_raised(recorded):%s" % type(e).__name__)
+        elif kind == "churn":
+            # address reuse: short-lived equal-length inputs created and dropped, collections forced in between
+            r2 = random.Random(op[2])
+            for j in range(op[1]):
+                a, b = r2.randrange(10, 99), r2.randrange(10, 99)
+                e = ("%d + %d" % (a, b)) if j % 2 == 0 else ("(%d).real" % (a * 100 + b))
+                e = "".join(list(e))          # a fresh object every time
+                r = engine_call(ctx, mito, e, None if j % 3 else "GLYCOLYSIS", registered, dict(desc, op=i, churn=j))
+                ctx.count("address_reuse_evaluations")
+                if j % 2 == 0 and r is not None and r.success and r.atp.value != a + b:
+                    ctx.violation("value-not-computed-from-expression", "%r evaluated to %r" % (e, r.atp.value), dict(desc, op=i, expression=e))
+                trace.append((i, j, None if r is None else bool(r.success)))
+                del e, r
+                if j % 2:
+                    gc.collect()
+                if mito.get_ros_level() >= mito.max_ros:
+                    mito.silent, was = True, mito.silent
+                    mito.repair(10.0)
+                    mito.silent = was
+        elif kind == "tool_call":
+            try:
+                res = api(ctx, mito, "execute_tool_call", ToolCall(id="c%d" % i, name=op[1], arguments=dict(op[2])))
+                trace.append((i, "tool_call", bool(res.success)))
+                if res.success and op[1] not in registered:
+                    ctx.violation("tool-call-of-unregistered-tool", "execute_tool_call ran %r, which is not registered" % (op[1],), dict(desc, op=i))
+            except Exception as e:  # noqa  (execute_tool_call does not take an expression: recorded only)
+                ctx.count("execute_tool_call_raised(recorded):%s" % type(e).__name__)
+        elif kind == "reenter":
+            _, name, inner = op
+            eng, reg = mito, registered
+
+            def reenter(*a, _eng=eng, _reg=reg, _inner=inner, **k):
+                saved = (Mon.stack, Mon.frames, Mon.parses, Mon.audit, Mon.armed, sys.stdout)
+                if Mon.reenter_depth >= 2:       # the tool re-enters the engine, it does not recurse without end (that would be the tool's fault)
+                    return "deep enough"
+                Mon.reenter_depth += 1
+                try:
+                    Mon.armed = False
+                    if _eng.get_ros_level() >= _eng.max_ros:
+                        return "latched"
+                    r = engine_call(ctx, _eng, _inner, None, _reg, {"session": label, "re-entrant": True})
+                    ctx.count("reentrant_evaluations")
+                    return None if r is None else bool(r.success)
+                finally:
+                    Mon.reenter_depth -= 1
+                    Mon.stack, Mon.frames, Mon.parses, Mon.audit, Mon.armed, sys.stdout = saved
+            was, mito.silent = mito.silent, True
+            mito.register_function(name, reenter, "re-entrant")
+            mito.silent = was
+            registered.add(name)
+            r = engine_call(ctx, mito, "%s(1)" % name, None, registered, dict(desc, op=i, reenter=inner))
+            trace.append((i, "reenter", None if r is None else bool(r.success)))
+    return trace
+
+
+def run_session(ctx, n, k):
+    rng = ctx.rng(n, "ops")
+    tier_long = 2500 if ctx.tier == "quick" else 25000
+    if k == 0:
+        ops = gen_ops(rng, tier_long, False, long_history=True)
+        play(ctx, n, ops, True, False, "long-history")
+        ctx.count("long_history_operations", len(ops))
+        ctx.nontrivial(("session", "long"))
+        return
+    differential = k % 2 == 1
+    ops = gen_ops(rng, rng.choice([40, 120, 250]), differential)
+    t1 = play(ctx, n, ops, True, differential, "with-reads")
+    if differential:
+        t2 = play(ctx, n, ops, False, differential, "without-reads")
+        ctx.count("differential_sessions")
+        if t1 != t2:
+            first = next((a, b) for a, b in zip(t1 + [None], t2 + [None]) if a != b)
+            ctx.violation("read-only-api-changes-later-verdict", "the same session with and without the interleaved read-only calls differs: %r vs %r" % first,
+                          {"ops": [list(map(str, o)) for o in ops[:max(0, (first[0] or first[1])[0] + 1)]][-12:], "with_reads": first[0], "without_reads": first[1]})
+    ctx.nontrivial(("session", tuple(sorted({o[0] for o in ops})), len(ops)))
+
+
+def run_names(ctx, n, k):
+    """one hostile tool name: registered through every public route, then the auto-detected (and forced) pathways over ordinary expressions"""
+    from operon_ai.organelles.mitochondria import Mitochondria
+    name = X.HOSTILE_NAMES[k]
+    rng = ctx.rng(n)
+    for route in range(4):
+        registered = set()
+        if route == 3:
+            ctx.count("api:__init__")
+            mito = Mitochondria(tools=[X.ShapeTool(name)], silent=True, timeout_seconds=30)
+            registered.add(name)
+        else:
+            ctx.count("api:__init__")
+            mito = Mitochondria(silent=True, max_ros=1e12, timeout_seconds=30)
+            register(ctx, rng, mito, registered, X.S(name) if route == 1 and rng.random() < 0.5 else name, route)
+        if rng.random() < 0.7:
+            register(ctx, rng, mito, registered, "probe", rng.randrange(3))
+        mito.max_ros = 1e12
+        exprs = NAME_EXPRS + [name + "(1)", name + " (1)", name.upper() + "(2)", name.lower() + "(3)", name, name + "(", " " + name + "(1) ", name + "(1) + 1"]
+        for silent in (True, False):
+            mito.silent = silent
+            for e in exprs:
+                for pw in (None, "OXIDATIVE") if silent else (None,):
+                    engine_call(ctx, mito, e, pw, registered, {"tool_name": name, "route": route})
+                    ctx.count("hostile_name_calls")
+            engine_call(ctx, mito, name + "(1)", None, registered, {"tool_name": name, "route": route}, entry="digest_glucose")
+    ctx.nontrivial(("tool-name", k))
+
+
+def run_namespace(ctx, n, k):
+    """names the evaluator could conceivably resolve (module globals of the engine's module, builtins, module names), bare and through one
+    attribute / subscript / call, at the root, under an allowed parent and as a tool argument"""
+    items = Mon.namespace
+    rng = ctx.rng(n)
+    mito, tools = make_engine(rng, 1)
+    mito.max_ros = 1e12
+    for idx in range(k, len(items), NS_CASES):
+        e = items[idx]
+        ctx.count("namespace_expressions")
+        engine_call(ctx, mito, e, "GLYCOLYSIS", tools, {"namespace": e})
+        engine_call(ctx, mito, e, None, tools, {"namespace": e})
+        c = rng.choice(CONTEXTS)[0].format("(" + e + ")")
+        engine_call(ctx, mito, c, rng.choice(["GLYCOLYSIS", "KREBS_CYCLE", None, "OXIDATIVE"]), tools, {"namespace": e})
+        if idx % 5 == 0:
+            engine_call(ctx, mito, e, None, tools, {"namespace": e}, entry="digest_glucose")
+    ctx.nontrivial(("namespace", k))
+
+
 def run_case(ctx, n):
     rng = ctx.rng(n)
     nh = len(HOSTILE)
+    lay = layout(ctx.tier)
+    for fam, fn in (("names", run_names), ("namespace", run_namespace), ("session", run_session)):
+        if lay[fam][0] <= n < lay[fam][1]:
+            return fn(ctx, n, n - lay[fam][0])
     if n < len(SWEEP):
         cls, snip, ctxs, plabel, dead = SWEEP[n]
         expr = ctxs.format("(" + snip + ")") if ctxs != "{}" else snip
@@ -654,6 +1060,42 @@ def bomb_list(pctx):
     out.append(("pow-tower", "9**9**9**9", 0.2, "GLYCOLYSIS", "digest_glucose"))
     out.append(("pow-tower", "1 < 9**9**9**9", 0.5, None, "metabolize"))
     out.append(("sequence-repeat", "probe('a'*10**10)", 0.5, None, "metabolize"))
+    # value types: every bomb that contains a str literal also with bytes literals; formatting with widths above and below the address-space cap
+    fmt = ["'%1200000000d' % 1", "'%*d' % (1200000000, 1)", "'%-1300000000s' % 'x'", "'%.1200000000d' % 1", "'%01200000000x' % 255", "len('%1200000000d' % 1)",
+           "'%1200000000r' % 'x'", "'%1200000000c' % 65", "'%2147483647d' % 1", "'%1200000000d' % 1 == ''", "('%1200000000d',)[0:1] == 0", "'%%%dd' % 1200000000 % 1"]
+    for e in fmt:
+        out.append(("string-formatting", e, 0.5, "GLYCOLYSIS", "metabolize", [], {"as_limit_gb": 3}))
+    seen = set()
+    for spec in list(out):
+        tw = X.bytes_twin(spec[1])
+        if tw and (tw, spec[3], spec[4]) not in seen and len(tw) <= 10000:
+            seen.add((tw, spec[3], spec[4]))
+            opts = dict(spec[6]) if len(spec) > 6 else {}
+            out.append((spec[0] + ":bytes", tw, spec[2], spec[3], spec[4], list(spec[5]) if len(spec) > 5 else [], dict(opts, bytes_twin=True)))
+    for e in ["probe(b'%1200000000d' % 1)", "b'%1200000000d' % 1 > b''", "len(b'%1200000000d' % 1)", "[b'%1200000000d' % 1]", "1 if b'%1200000000d' % 1 else 2"]:
+        out.append(("string-formatting:bytes", e, 0.5, None, "metabolize", [], {"as_limit_gb": 3, "bytes_twin": True}))
+    # settings changed after construction: built permissive (or with another timeout altogether), sealed before the timed call
+    for ctor in (3600.0, 0.0, 1e9, 5):
+        out.append(("timeout-assigned-later", moderate, 0.5, "GLYCOLYSIS", "metabolize", [], {"ctor_tau": ctor}))
+        out.append(("timeout-assigned-later", moderate, 0.5, None, "digest_glucose", ["1 + 1"], {"ctor_tau": ctor}))
+    out.append(("timeout-assigned-later", "9**9**9**9", 0.5, None, "metabolize", [], {"ctor_tau": 3600.0}))
+    # the same obligations on a duplicate of the engine
+    for mode in ("copy", "deepcopy", "pickle"):
+        out.append(("duplicated-engine:" + mode, moderate, 0.5, "GLYCOLYSIS", "metabolize", ["1 + 1", "1/0"], {"copy": mode}))
+        out.append(("duplicated-engine:" + mode, "[0]*10**10", 0.5, "GLYCOLYSIS", "metabolize", [], {"copy": mode, "ctor_tau": 3600.0}))
+    # interpreter started with -O (asserts compiled away), and with the process time zone far from UTC
+    base = list(out)
+    for i, spec in enumerate(base):
+        if i % 9 == 0 or spec[0].startswith(("string-formatting", "timeout-assigned", "tiny-timeout")) and i % 2 == 0:
+            opts = dict(spec[6]) if len(spec) > 6 else {}
+            out.append((spec[0], spec[1], spec[2], spec[3], spec[4], list(spec[5]) if len(spec) > 5 else [], dict(opts, optimized=True)))
+    norm = []
+    for i, sp in enumerate(out):
+        opts = dict(sp[6]) if len(sp) > 6 else {}
+        if i % 2:
+            opts["tz"] = ["Pacific/Kiritimati", "Pacific/Pago_Pago", "Asia/Kathmandu"][i % 3]
+        norm.append(tuple(sp[:5]) + (list(sp[5]) if len(sp) > 5 else [], opts))
+    out = norm
     if pctx.tier == "thorough":
         rng = pctx.rng("bombs")
         for i in range(120):
@@ -685,34 +1127,177 @@ def bomb_list(pctx):
     return out
 
 
+def _child_cpu(pid):
+    """CPU seconds (user + system) consumed so far by a child process, from /proc"""
+    try:
+        with open("/proc/%d/stat" % pid) as f:
+            rest = f.read().rsplit(")", 1)[1].split()
+        return (int(rest[11]) + int(rest[12])) / float(os.sysconf("SC_CLK_TCK"))
+    except Exception:
+        return None
+
+
 def run_bomb(spec):
     mech, expr, tau, pathway, entry = spec[:5]
     prelude = spec[5] if len(spec) > 5 else []
+    opts = spec[6] if len(spec) > 6 else {}
     bound = 10 * tau + 2.0
-    arg = json.dumps({"expr": expr, "tau": tau, "pathway": pathway, "entry": entry, "as_limit_gb": 2, "prelude": prelude})
+    d = {"expr": expr, "tau": tau, "pathway": pathway, "entry": entry, "as_limit_gb": opts.get("as_limit_gb", 2), "prelude": prelude}
+    for k in ("ctor_tau", "copy"):
+        if k in opts:
+            d[k] = opts[k]
+    arg = json.dumps(d)
     env = dict(os.environ)
+    if opts.get("tz"):
+        env["TZ"] = opts["tz"]
     t0 = time.time()
-    try:
-        p = subprocess.run([sys.executable, "-B", os.path.join(core.VERIF, "rv", "c01_bomb_child.py"), arg],
-                           capture_output=True, text=True, timeout=bound + 15, env=env)
-    except subprocess.TimeoutExpired:
-        return spec, {"status": "timeout", "wall_s": time.time() - t0, "bound_s": bound}
-    line = [l for l in p.stdout.splitlines() if l.startswith("{")]
+    # the verdict "did not return" is decided on the CPU time the child consumed, never on wall time (the machine may be heavily loaded):
+    # the child is left alone until it has burnt bound + 5 s of CPU (or sat idle for 15 minutes, which no load explains)
+    cmd = [sys.executable, "-B"] + (["-O"] if opts.get("optimized") else []) + [os.path.join(core.VERIF, "rv", "c01_bomb_child.py"), arg]
+    p = subprocess.Popen(cmd, stdout=subprocess.PIPE, stderr=subprocess.PIPE, text=True, env=env)
+    killed = None
+    while True:
+        try:
+            so, se = p.communicate(timeout=1.0)
+            break
+        except subprocess.TimeoutExpired:
+            cpu = _child_cpu(p.pid)
+            if cpu is not None and cpu > bound + 5.0:
+                killed = "cpu"
+            elif time.time() - t0 > 900:
+                killed = "idle"
+            if killed:
+                p.kill()
+                so, se = p.communicate()
+                return spec, {"status": "timeout", "wall_s": time.time() - t0, "bound_s": bound, "child_cpu_s": cpu, "stopped_because": killed}
+    line = [l for l in so.splitlines() if l.startswith("{")]
     if not line:
-        return spec, {"status": "crash", "rc": p.returncode, "stderr": p.stderr[-300:], "wall_s": time.time() - t0, "bound_s": bound}
+        return spec, {"status": "crash", "rc": p.returncode, "stderr": se[-300:], "wall_s": time.time() - t0, "bound_s": bound}
     out = json.loads(line[-1])
     out["bound_s"] = bound
     return spec, out
 
 
+def optimized_probe_pairs():
+    """refusal obligations in an interpreter started with -O (a guard written as an `assert` is compiled away there): every snippet at the root and
+    under one allowed parent, on the math / logic / auto-detected pathways and through digest_glucose; judged by the outcome oracle"""
+    from operon_ai.organelles.mitochondria import Mitochondria
+    names = set(getattr(Mitochondria, "SAFE_FUNCTIONS", {}))
+    pairs = []
+    ctxs = ["{}", "1 + {}", "abs({})", "[1, {}]", "{} < 3", "1 if {} else 2"]
+    i = 0
+    for cls, lst in sorted(SNIPPETS.items()):
+        for sn in lst:
+            i += 1
+            c = ctxs[i % len(ctxs)]
+            pairs.append([sn, "GLYCOLYSIS"])
+            pairs.append([c.format("(" + sn + ")"), ["GLYCOLYSIS", "KREBS_CYCLE", None, "digest"][i % 4]])
+    for e in ["x" * 10001, "1+" * 5000 + "1", "(" * 300 + "1" + ")" * 300, "9**9**9**9", "[0]*10**10", "factorial(10**6)", "round(5, -10**9)", "'%999d' % 1", "b'%999d' % 1"]:
+        pairs.append([e, "GLYCOLYSIS"])
+    return pairs, names
+
+
+def judge_probe(pctx, pairs, names, out):
+    if out.get("status") != "probed" or not out.get("optimized") or len(out.get("results", [])) != len(pairs):
+        pctx.inconclusive("the -O probe child did not run optimized / did not finish: %s" % str(out)[:200])
+        return
+    for (expr, pw), r in zip(pairs, out["results"]):
+        pctx.count("optimized_probe_expressions")
+        pctx.case = "optimized-probe"
+        w = {"expression": expr, "pathway": pw, "interpreter": "python -O", "child": r}
+        if "raised" in r:
+            pctx.violation("raises-to-caller:%s:optimized-interpreter" % r["raised"].split(":")[0], "under python -O %r raised %s" % (expr, r["raised"]), w)
+            continue
+        if not r.get("s"):
+            pctx.count("optimized_probe_refusals")
+            continue
+        used = r.get("p") or "GLYCOLYSIS"
+        if used not in ("GLYCOLYSIS", "KREBS_CYCLE"):
+            continue
+        try:
+            tree = ast.parse(expr.strip(), mode="eval")
+        except (SyntaxError, ValueError, RecursionError, MemoryError):
+            pctx.violation("optimized-interpreter:success-for-unparsable-text", "under python -O %r succeeded (%s)" % (expr[:80], r.get("v")), w)
+            continue
+        lower = {"true", "false"} if used == "KREBS_CYCLE" else set()
+        badn = [n for n in must_evaluate(tree.body) if not node_allowed(n, names | lower)]
+        if badn:
+            pctx.violation("optimized-interpreter:success-outside-allow-list:%s" % type(badn[0]).__name__,
+                           "under python -O %r succeeded (%s) although evaluating it requires a %s node" % (expr, r.get("v"), _label(badn[0])), w)
+    pctx.case = None
+
+
+def spec_dict(i, spec):
+    mech, expr, tau, pathway, entry = spec[:5]
+    opts = spec[6] if len(spec) > 6 else {}
+    d = {"id": i, "expr": expr, "tau": tau, "pathway": pathway, "entry": entry, "as_limit_gb": opts.get("as_limit_gb", 2),
+         "prelude": spec[5] if len(spec) > 5 else [], "bound": 10 * tau + 2.0}
+    for k in ("ctor_tau", "copy", "tz"):
+        if k in opts:
+            d[k] = opts[k]
+    return d
+
+
+def run_group(specs, indices, optimized, probe=None):
+    """one fork server (the library imported once, one forked process per spec); returns {index: result}; anything the server did not
+    answer is run again in a process of its own"""
+    payload = {"parallel": 6, "max_stops": 12, "specs": [spec_dict(i, specs[i]) for i in indices]}
+    if probe is not None:
+        payload["specs"].insert(0, {"id": "probe", "probe": probe, "tau": 30.0, "bound": 600.0, "as_limit_gb": 2})
+    cmd = [sys.executable, "-B"] + (["-O"] if optimized else []) + [os.path.join(core.VERIF, "rv", "c01_bomb_child.py"), "--server"]
+    got = {}
+    try:
+        p = subprocess.run(cmd, input=json.dumps(payload), capture_output=True, text=True, timeout=7200)
+        for l in p.stdout.splitlines():
+            if l.startswith("{"):
+                try:
+                    o = json.loads(l)
+                    got[o.pop("id")] = o
+                except Exception:
+                    pass
+    except Exception:  # noqa
+        pass
+    for i in indices:
+        if i not in got:
+            got[i] = run_bomb(specs[i])[1]
+            got[i]["fallback_single_process"] = True
+        got[i].setdefault("bound_s", 10 * specs[i][2] + 2.0)
+    return got
+
+
 def extra_parent(pctx):
     specs = bomb_list(pctx)
-    with ThreadPoolExecutor(6) as ex:
-        for spec, out in ex.map(run_bomb, specs):
+    pairs, names = optimized_probe_pairs()
+    opt = [i for i, sp in enumerate(specs) if len(sp) > 6 and sp[6].get("optimized")]
+    plain = [i for i in range(len(specs)) if i not in set(opt)]
+    with ThreadPoolExecutor(2) as ex:
+        f1 = ex.submit(run_group, specs, plain, False)
+        f2 = ex.submit(run_group, specs, opt, True, pairs)
+        results = dict(f1.result())
+        r2 = f2.result()
+    probe_out = r2.pop("probe", None)
+    results.update(r2)
+    if probe_out is None:
+        pctx.inconclusive("the -O probe did not produce a result")
+    else:
+        judge_probe(pctx, pairs, names, probe_out)
+    for i, spec in enumerate(specs):
+        out = results[i]
+        if len(spec) > 6 and spec[6].get("optimized") and not out.get("optimized") and out.get("status") == "returned":
+            pctx.inconclusive("a bomb meant for python -O ran in an ordinary interpreter")
+        if out.get("status") == "skipped":
+            pctx.count("bombs_skipped_after_12_that_did_not_return")
+            continue
+        if True:
             mech, expr, tau, pathway, entry = spec[:5]
             pctx.count("bombs_run")
+            opts = spec[6] if len(spec) > 6 else {}
+            for key, cname in (("optimized", "bombs_optimized_interpreter"), ("copy", "bombs_on_duplicated_engine"), ("ctor_tau", "bombs_after_timeout_reassigned"),
+                               ("bytes_twin", "bytes_twin_bombs"), ("tz", "bombs_in_far_time_zone")):
+                if opts.get(key) is not None and opts.get(key) is not False:
+                    pctx.count(cname)
             pctx.case = "bomb:%s" % mech
-            w = {"expression": expr, "timeout_seconds": tau, "pathway": pathway, "entry": entry, "child": out,
+            w = {"expression": expr, "timeout_seconds": tau, "pathway": pathway, "entry": entry, "child": out, "options": opts,
                  "earlier_calls_on_the_same_engine": [p if not isinstance(p, str) or len(p) < 80 else p[:40] + "...<%d chars>" % len(p) for p in (spec[5] if len(spec) > 5 else [])]}
             if out["status"] == "timeout":
                 pctx.violation("no-return-within-bound:%s" % mech, "%s(%r) with timeout_seconds=%s did not return within %.0f s" % (entry, expr, tau, out["bound_s"]), w)
